@@ -602,7 +602,12 @@ class FuncAnalysis:
             for t in targets:
                 if t[0] == "P":
                     tt = t if m.target[0] == "P" else ("P", t[1], min(t[2] + 1, 2))
-                    s.mut.add((tt, m.kind, m.origin_func, m.origin_line, m.origin_text, m.chain))
+                    kind = m.kind
+                    if m.target[0] != "P" and "(object stored in shared state)" not in kind:
+                        # the object was allocated in this activation and handed to the parameter's region: its own
+                        # initialisation is not a modification of data that existed before the call
+                        kind = kind + " (object stored in shared state)"
+                    s.mut.add((tt, kind, m.origin_func, m.origin_line, m.origin_text, m.chain))
         return s
 
     def global_mutations(self) -> List[MutRec]:
